@@ -17,6 +17,7 @@ C11-ip-inet-aton-trailing-text).
 -/
 import OsloProofs.Lemmas.C11Cidr
 import OsloProofs.Lemmas.C11V6c
+import OsloProofs.Lemmas.C11Aton
 set_option linter.unusedSimpArgs false
 set_option linter.unusedVariables false
 namespace Oslo.Net
@@ -62,13 +63,13 @@ theorem ipv4_accept_iff_canonical (s : List Char) :
 /-- the rendering used above is ordinary decimal notation -/
 theorem renderOctet_is_decimal : ∀ n, n < 256 → renderOctet n = Nat.toDigits 10 n := by decide +kernel
 
-example : isValidIPv4 "192.168.0.255".toList = true := by decide
-example : "192.168.0.255".toList = renderQuad 192 168 0 255 := by decide
-example : isValidIPv4 "192.168.0.256".toList = false := by decide
-example : isValidIPv4 "192.168.00.1".toList = false := by decide
-example : isValidIPv4 "192.168.1".toList = false := by decide
-example : isValidIPv4 "0x7f.0.0.1".toList = false := by decide
-example : isValidIPv4 "1.2.3.4\n".toList = false := by decide
+example : isValidIPv4 "192.168.0.255".toList = true := by decide +kernel
+example : "192.168.0.255".toList = renderQuad 192 168 0 255 := by decide +kernel
+example : isValidIPv4 "192.168.0.256".toList = false := by decide +kernel
+example : isValidIPv4 "192.168.00.1".toList = false := by decide +kernel
+example : isValidIPv4 "192.168.1".toList = false := by decide +kernel
+example : isValidIPv4 "0x7f.0.0.1".toList = false := by decide +kernel
+example : isValidIPv4 "1.2.3.4\n".toList = false := by decide +kernel
 
 /-! ### is_valid_ipv6 -/
 
@@ -146,6 +147,12 @@ theorem ipv6_noscope (s : List Char) (hp : '%' ∉ s) :
         | some g => exact ⟨hn, g, rfl⟩
   · rintro ⟨_, g, hg⟩
     exact lemma_valid_of_pton6 s g hg
+
+/-- alphabet: a valid IPv6 text without '%' consists of hex digits, ':' and '.' only -/
+theorem ipv6_alphabet (s : List Char) (hp : '%' ∉ s) (h : isValidIPv6 s = true) :
+    ∀ c ∈ s, isHex c = true ∨ c = ':' ∨ c = '.' := by
+  obtain ⟨_, g, hg⟩ := (ipv6_noscope s hp).1 h
+  exact lemma_pton6_chars s g hg
 
 /-- Full rendering: eight groups of at most four hex digits joined by ':' are accepted, and parse to
     their values.  (Groups may use either case and leading zeros; `renderGroup` is one instance.) -/
@@ -239,9 +246,9 @@ theorem ipv6_accepts_renderings (gs : List Nat) (hg : ∀ g ∈ gs, g < 65536) (
 
 example : joinSep ':' ([0x2001, 0xdb8, 0, 0, 0, 0xff00, 0x42, 0x8329].map renderGroup)
     = "2001:db8:0:0:0:ff00:42:8329".toList := by decide
-example : isValidIPv6 "2001:db8::ff00:42:8329".toList = true := by decide
-example : isValidIPv6 "::ffff:192.0.2.128".toList = true := by decide
-example : isValidIPv6 "::".toList = true := by decide
+example : isValidIPv6 "2001:db8::ff00:42:8329".toList = true := by decide +kernel
+example : isValidIPv6 "::ffff:192.0.2.128".toList = true := by decide +kernel
+example : isValidIPv6 "::".toList = true := by decide +kernel
 
 theorem lemma_joinSep_mem (sep : Char) (ts : List (List Char)) (c : Char) (h : c ∈ joinSep sep ts) :
     c = sep ∨ ∃ t ∈ ts, c ∈ t := by
@@ -390,21 +397,52 @@ theorem ipv6_rejects_long_scope (a sc : List Char) (hs : '%' ∉ sc) (hl : 15 < 
   have := (ipv6_scope_iff a sc hs).1 h
   omega
 
-example : isValidIPv6 "fe80::1%eth0".toList = true := by decide
-example : isValidIPv6 "fe80::1%".toList = false := by decide
-example : isValidIPv6 "fe80::1%0123456789abcdef".toList = false := by decide
-example : isValidIPv6 "1:2:3:4:5:6:7".toList = false := by decide
-example : isValidIPv6 "1::2::3".toList = false := by decide
-example : isValidIPv6 "12345::".toList = false := by decide
+example : isValidIPv6 "fe80::1%eth0".toList = true := by decide +kernel
+example : isValidIPv6 "fe80::1%".toList = false := by decide +kernel
+example : isValidIPv6 "fe80::1%0123456789abcdef".toList = false := by decide +kernel
+example : isValidIPv6 "1:2:3:4:5:6:7".toList = false := by decide +kernel
+example : isValidIPv6 "1::2::3".toList = false := by decide +kernel
+example : isValidIPv6 "12345::".toList = false := by decide +kernel
 
 /-! ### is_valid_ip -/
 
-theorem ip_accepts_ipv6 (s : List Char) (h : isValidIPv6 s = true) : isValidIP s = true := by
-  simp [isValidIP, h]
-
+/-- `is_valid_ip` is "inet_aton form, or valid IPv6" (`is_valid_ipv4(address, strict=False) or is_valid_ipv6`) -/
 theorem ip_iff (s : List Char) :
     isValidIP s = true ↔ isValidIPv4Aton s = true ∨ isValidIPv6 s = true := by
   simp [isValidIP]
+
+/-- every valid IPv6 text (with or without scope id) is a valid IP -/
+theorem ip_accepts_ipv6 (s : List Char) (h : isValidIPv6 s = true) : isValidIP s = true := by
+  simp [isValidIP, h]
+
+/-- every canonical dotted quad is a valid IP (through the inet_aton path) -/
+theorem ip_accepts_canonical_ipv4 (a b c d : Nat) (ha : a < 256) (hb : b < 256) (hc : c < 256) (hd : d < 256) :
+    isValidIP (renderQuad a b c d) = true := by
+  have hch := lemma_renderQuad_chars a b c d ha hb hc hd
+  have hne : (renderQuad a b c d).isEmpty = false := by
+    unfold renderQuad renderOctet; split <;> simp
+  have hcolon : ':' ∉ renderQuad a b c d := by
+    intro h; rcases hch _ h with h | h <;> revert h <;> decide
+  have hnul : nul ∉ renderQuad a b c d := by
+    intro h; rcases hch _ h with h | h <;> revert h <;> decide
+  simp [isValidIP, isValidIPv4Aton, hne, hcolon, hnul, lemma_aton_quad a b c d ha hb hc hd]
+
+/-- whatever `is_valid_ipv4` (strict) accepts, `is_valid_ip` accepts -/
+theorem ip_accepts_ipv4 (s : List Char) (h : isValidIPv4 s = true) : isValidIP s = true := by
+  obtain ⟨a, b, c, d, ha, hb, hc, hd, rfl⟩ := (ipv4_accept_iff_canonical s).1 h
+  exact ip_accepts_canonical_ipv4 a b c d ha hb hc hd
+
+example : isValidIP "192.168.0.1".toList = true := by decide +kernel
+example : isValidIP "fe80::1%eth0".toList = true := by decide +kernel
+example : isValidIP "256.0.0.0".toList = false := by decide +kernel
+example : isValidIP "1.2.3.4.5".toList = false := by decide +kernel
+example : isValidIP "".toList = false := by decide +kernel
+/-- recorded interpretation: inet_aton numeric forms are accepted by `is_valid_ip` … -/
+example : isValidIP "10".toList = true ∧ isValidIP "10.1".toList = true ∧ isValidIP "0x7f.1".toList = true := by
+  decide +kernel
+/-- … and so is anything after an ASCII white-space character: known finding C11-ip-inet-aton-trailing-text
+    (the model follows the code) -/
+example : isValidIP "1.2.3.4 anything".toList = true ∧ isValidIP "1.2.3.4\n".toList = true := by decide +kernel
 
 /-! ### is_valid_cidr / is_valid_ipv6_cidr -/
 
@@ -533,6 +571,15 @@ theorem cidr_iff_strict_partial (a p : List Char) (ha : '/' ∉ a) (hN5 : ¬ N5C
   · intro h
     exact ⟨a, p, rfl, ha, by simpa only [lemma_prefix_strict _ p hN5 hlen] using h⟩
 
+/-- the mask branch is not empty: for every prefix length the corresponding netmask and hostmask pass
+    netaddr's `is_netmask` / `is_hostmask` bit test (the converse — only these pass — is not proved here; the
+    correspondence exercises masks with holes) -/
+theorem masks_v4_accepted : ∀ k, k ≤ 32 →
+    isNetmask .v4 (2 ^ 32 - 2 ^ (32 - k)) = true ∧ isHostmask (2 ^ (32 - k) - 1) = true := by decide +kernel
+
+theorem masks_v6_accepted : ∀ k, k ≤ 128 →
+    isNetmask .v6 (2 ^ 128 - 2 ^ (128 - k)) = true ∧ isHostmask (2 ^ (128 - k) - 1) = true := by decide +kernel
+
 /-- `is_valid_ipv6_cidr`: a bare IPv6 address, or address '/' prefix (model semantics, `int()` prefix) -/
 theorem cidr6_iff (s : List Char) :
     isValidIPv6Cidr s = true ↔
@@ -559,18 +606,18 @@ theorem cidr6_iff_strict_partial (a p : List Char) (ha : '/' ∉ a) (hN5 : ¬ N5
     strict branch), and the 33 IPv4 netmasks are masks -/
 example : StrictPrefixOK .v4 "24".toList := Or.inl ⟨⟨by decide, by decide⟩, by decide⟩
 example : ¬ N5Class "24".toList := fun h => h.2 ⟨by decide, by decide⟩
-example : isValidCidr "10.0.0.0/24".toList = true := by decide
-example : isValidCidr "10.0.0.0/33".toList = false := by decide
-example : isValidCidr "10.0.0.0/255.255.255.0".toList = true := by decide
-example : isValidCidr "10.0.0.0/255.0.255.0".toList = false := by decide
-example : isValidCidr "2600::/64".toList = true := by decide
-example : isValidCidr "2600::/129".toList = false := by decide
-example : isValidIPv6Cidr "2600::".toList = true := by decide
-example : isValidIPv6Cidr "10.0.0.0/8".toList = false := by decide
+example : isValidCidr "10.0.0.0/24".toList = true := by decide +kernel
+example : isValidCidr "10.0.0.0/33".toList = false := by decide +kernel
+example : isValidCidr "10.0.0.0/255.255.255.0".toList = true := by decide +kernel
+example : isValidCidr "10.0.0.0/255.0.255.0".toList = false := by decide +kernel
+example : isValidCidr "2600::/64".toList = true := by decide +kernel
+example : isValidCidr "2600::/129".toList = false := by decide +kernel
+example : isValidIPv6Cidr "2600::".toList = true := by decide +kernel
+example : isValidIPv6Cidr "10.0.0.0/8".toList = false := by decide +kernel
 /-- the N5 witnesses: the model (like the code) accepts them; they are in `N5Class` -/
-example : isValidCidr "10.0.0.0/8 ".toList = true := by decide
-example : isValidCidr "10.0.0.0/+8".toList = true := by decide
-example : isValidCidr "10.0.0.0/0_8".toList = true := by decide
+example : isValidCidr "10.0.0.0/8 ".toList = true := by decide +kernel
+example : isValidCidr "10.0.0.0/+8".toList = true := by decide +kernel
+example : isValidCidr "10.0.0.0/0_8".toList = true := by decide +kernel
 example : N5Class "8 ".toList := ⟨⟨8, by decide⟩, fun h => by have := h.2 ' ' (by decide); revert this; decide⟩
 
 /-! ### is_valid_mac -/
@@ -636,11 +683,11 @@ theorem mac_length (s : List Char) (h : isValidMac s = true) : s.length = 17 := 
     obtain ⟨_, _, rfl, _, _⟩ := hp t6 (by simp)
     simp [joinSep]
 
-example : isValidMac "52:54:00:cf:2D:31".toList = true := by decide
-example : isValidMac "52:54:00:cf:2d:31\n".toList = false := by decide
-example : isValidMac "52-54-00-cf-2d-31".toList = false := by decide
-example : isValidMac "52:54:00:cf:2d".toList = false := by decide
-example : isValidMac "52:54:00:cf:2d:31:00".toList = false := by decide
+example : isValidMac "52:54:00:cf:2D:31".toList = true := by decide +kernel
+example : isValidMac "52:54:00:cf:2d:31\n".toList = false := by decide +kernel
+example : isValidMac "52-54-00-cf-2d-31".toList = false := by decide +kernel
+example : isValidMac "52:54:00:cf:2d".toList = false := by decide +kernel
+example : isValidMac "52:54:00:cf:2d:31:00".toList = false := by decide +kernel
 
 /-! ### ports and ICMP numbers -/
 
@@ -690,15 +737,15 @@ theorem port_alphabet (s : List Char) (h : isValidPort (.str s) = true) : ∀ c 
   obtain ⟨n, hn, _⟩ := (port_iff s).1 h
   exact lemma_pyInt_chars s n hn
 
-example : isValidPort (.str "65535".toList) = true := by decide
-example : isValidPort (.str "65536".toList) = false := by decide
-example : isValidPort (.str "-1".toList) = false := by decide
-example : isValidPort (.str " 80 ".toList) = true := by decide
-example : isValidPort (.str "8_0".toList) = true := by decide
-example : isValidPort (.str "80.0".toList) = false := by decide
-example : isValidPort (.str "".toList) = false := by decide
-example : isValidIcmpType (.str "255".toList) = true := by decide
-example : isValidIcmpType (.str "256".toList) = false := by decide
+example : isValidPort (.str "65535".toList) = true := by decide +kernel
+example : isValidPort (.str "65536".toList) = false := by decide +kernel
+example : isValidPort (.str "-1".toList) = false := by decide +kernel
+example : isValidPort (.str " 80 ".toList) = true := by decide +kernel
+example : isValidPort (.str "8_0".toList) = true := by decide +kernel
+example : isValidPort (.str "80.0".toList) = false := by decide +kernel
+example : isValidPort (.str "".toList) = false := by decide +kernel
+example : isValidIcmpType (.str "255".toList) = true := by decide +kernel
+example : isValidIcmpType (.str "256".toList) = false := by decide +kernel
 example : StrictDec "65535".toList := ⟨by decide, by decide⟩
 
 end Oslo.Net
